@@ -138,6 +138,33 @@ fn main() {
                     if opened { pb.push("the secret handed to the caller decrypts (part of) the encrypted metadata".into()); }
                     format!("HB {} {}", ser.len(), if pb.is_empty() { "-".to_string() } else { pb.join(" ; ").replace(' ', "_") })
                 }
+                // CLR <md hex|-|empty>: the CLEARTEXT header (result of decrypt) serialized and read back
+                "CLR" => {
+                    use cosmian_cover_crypt::CleartextHeader;
+                    let md = opt(f[1]);
+                    let (s, h) = EncryptedHeader::generate(&cc, &mpk, &pol, md.as_deref(), Some(b"ad")).unwrap();
+                    let c = h.decrypt(&cc, &good, Some(b"ad")).unwrap().unwrap();
+                    let mut pb: Vec<String> = vec![];
+                    if *c.secret != *s { pb.push("secret differs from the one generate returned".into()); }
+                    if c.metadata.clone().unwrap_or_default() != md.clone().unwrap_or_default() { pb.push("metadata differ".into()); }
+                    let b = c.serialize().unwrap();
+                    if b.len() != c.length() { pb.push(format!("length() announces {} bytes, {} are written", c.length(), b.len())); }
+                    match CleartextHeader::deserialize(&b) {
+                        Err(e) => pb.push(format!("cannot be read back: {e}")),
+                        Ok(c2) => { if *c2.secret != *c.secret { pb.push("read back with another secret".into()); }
+                            if c2.metadata.clone().unwrap_or_default() != c.metadata.clone().unwrap_or_default() { pb.push("read back with other metadata".into()); }
+                            if c2.length() != b.len() { pb.push("length() of the copy is wrong".into()); }
+                            if c2.serialize().unwrap() != b { pb.push("the copy serializes to other bytes".into()); } }
+                    }
+                    // read from a buffer that CONTINUES (a header in front of a payload)
+                    let mut buf = b.to_vec(); buf.extend_from_slice(b"payload after the header");
+                    let mut de = cosmian_crypto_core::bytes_ser_de::Deserializer::new(&buf);
+                    match de.read::<CleartextHeader>() { Ok(c3) => if *c3.secret != *c.secret { pb.push("read from a stream with another secret".into()); }, Err(e) => pb.push(format!("cannot be read from a buffer that continues: {e}")) }
+                    let hb = h.serialize().unwrap(); let mut hbuf = hb.to_vec(); hbuf.extend_from_slice(b"payload after the header");
+                    let mut de = cosmian_crypto_core::bytes_ser_de::Deserializer::new(&hbuf);
+                    match de.read::<EncryptedHeader>() { Ok(h3) => if h3 != h { pb.push("encrypted header read from a stream differs".into()); }, Err(e) => pb.push(format!("encrypted header cannot be read from a buffer that continues: {e}")) }
+                    format!("CL {}", if pb.is_empty() { "-".to_string() } else { pb.join(" ; ").replace(' ', "_") })
+                }
                 "HDRKEY" => { let md = opt(f[1]).unwrap_or_default(); let ad = opt(f[2]);
                     // does the SECRET RETURNED TO THE CALLER decrypt the encrypted metadata when used as the AES key?
                     use cosmian_crypto_core::{Dem, FixedSizeCBytes, Instantiable, Nonce, SymmetricKey};
